@@ -40,6 +40,7 @@ PARTS = {
     'skip_set_exact': ('skip-set-wrong', 'skipped = exactly the non-always-run jobs with a failed or skipped parent'),
     'raises_iff_some_job_failed': ('failure-not-reported', 'run() raises CalledProcessError iff an executed job failed'),
     'no_other_exception': ('unexpected-exception', 'acyclic pipelines raise nothing but the job failure'),
+    'pipeline_builds': ('legitimate-dsl-call-rejected', 'every DSL call of the builder is accepted (cycles are rejected by run() only)'),
     'submitted_iff_ran': ('submitted-flag-wrong', 'a job is marked submitted iff it was executed'),
 }
 
@@ -142,7 +143,7 @@ def run(R):
                 by_part.setdefault(part, []).append(v)
         for part, (cls, text) in PARTS.items():
             n = part_counts.get(part, 0)
-            if part == 'no_other_exception' and part not in by_part:
+            if part in ('no_other_exception', 'pipeline_builds') and part not in by_part:
                 continue      # only exists as a failure (another exception escaped)
             name = f'{tag}: {text}'
             detail = {'paths_checked': n, 'shards': len(rs)}
